@@ -4,4 +4,5 @@ same Report; it must be quick (a few tens of seconds) in the quick tier."""
 EXTRAS = {
     "C02": ["h2probe"],
     "C05": ["redirmeta"],
+    "C09": ["ssltransport"],
 }
